@@ -6,6 +6,7 @@ import (
 	"log/slog"
 	"sort"
 	"sync"
+	"sync/atomic"
 
 	"github.com/deckhouse/deckhouse/pkg/log"
 
@@ -40,7 +41,7 @@ type monitor struct {
 	VaryingInformers varyingInformers
 
 	eventCb       func(kemtypes.KubeEvent)
-	eventsEnabled bool
+	eventsEnabled atomic.Bool
 	// Index of namespaces statically defined in monitor configuration
 	staticNamespaces sync.Map
 
@@ -220,7 +221,7 @@ func (m *monitor) CreateInformers() error {
 
 				for _, informer := range varyingInformers {
 					informer.withContext(ctx)
-					if m.eventsEnabled {
+					if m.eventsEnabled.Load() {
 						informer.enableKubeEventCb()
 					}
 					informer.start()
@@ -299,6 +300,9 @@ func (m *monitor) Snapshot() []kemtypes.ObjectAndFilterResult {
 // Also executes eventCb for events accumulated during "Synchronization" phase.
 func (m *monitor) EnableKubeEventCb() {
 	verifsched.Point("monitor.enable.start", m.Config.Metadata.DebugName)
+	// Enable events for future VaryingInformers first: informers of a namespace that appears
+	// while the loops below are running are either visited by the range or see the flag.
+	m.eventsEnabled.Store(true)
 	for _, informer := range m.ResourceInformers {
 		informer.enableKubeEventCb()
 	}
@@ -310,8 +314,6 @@ func (m *monitor) EnableKubeEventCb() {
 		}
 	})
 	verifsched.Point("monitor.enable.rangeDone", m.Config.Metadata.DebugName)
-	// Enable events for future VaryingInformers.
-	m.eventsEnabled = true
 }
 
 // CreateInformersForNamespace creates informers bounded to the namespace. If no matchName is specified,
